@@ -1700,6 +1700,36 @@ func ruleShapePayload(c *Ctx, r *R) {
 				}
 			}
 		}
+		if cls == "Date" {
+			// 15.9.5: the Date prototype object is a Date whose [[PrimitiveValue]] is NaN: its payload is the invalid date
+			var lit *ast.CompositeLit
+			switch x := e.(type) {
+			case *ast.CompositeLit:
+				lit = x
+			case *ast.Ident:
+				if info := c.InfoFor(x); info != nil {
+					if obj := info.Uses[x]; obj != nil {
+						lit, _ = c.VarInit(obj).(*ast.CompositeLit)
+					}
+				}
+			}
+			if lit == nil {
+				r.undecided("Date.prototype:time-value", c.Pos(e.Pos()), "UNRESOLVED: the payload of Date.prototype is not a composite literal (or a variable initialised with one)")
+			} else {
+				nan := false
+				for _, el := range lit.Elts {
+					if kv, ok := el.(*ast.KeyValueExpr); ok {
+						if k, ok := kv.Key.(*ast.Ident); ok && k.Name == "isNaN" {
+							if v, ok := kv.Value.(*ast.Ident); ok && v.Name == "true" {
+								nan = true
+							}
+						}
+					}
+				}
+				r.check(nan, "Date.prototype:time-value", c.Pos(lit.Pos()), "the payload of Date.prototype is the invalid date (isNaN: true)",
+					"Date.prototype's payload is a valid date (isNaN is not true): `Date.prototype.getTime()` is 0 and `Date.prototype.toJSON()` is \"1970-01-01T00:00:00.000Z\"; ES5 15.9.5 makes its time value NaN")
+			}
+		}
 		r.check(okType, key, c.Pos(e.Pos()), "internal value of type "+got+", as stored by new "+cls, fmt.Sprintf("%s.prototype holds an internal value of Go type %s, but `new %s` stores %v: the readers of the class's payload (valueOf, toString, JSON.stringify ...) are written against the constructor's type, so with the prototype itself as receiver they answer undefined or fail a type assertion in the host", cls, got, cls, sortedKeys(want)))
 	}
 }
